@@ -71,3 +71,10 @@ Print Assumptions C16_compact_reply_total.
 Theorem C16_decoded_nesting_bounded : forall n t, Meta.run_net_nesting [n; t] = [1] -> Meta.nesting_levels 0 n <= Meta.max_nesting.
 Proof. exact MetaProofs.net_nesting_bounded. Qed.
 Print Assumptions C16_decoded_nesting_bounded.
+
+(* the configured limit on an HTTP tracker reply: whatever length the tracker declares (or none:
+   a streamed reply) and however much it sends, at most [limit] bytes are read (kind 1605) *)
+Theorem C16_http_reply_read_within_limit : forall limit declared stream got, 0 <= limit ->
+  read_reply limit declared stream = Some got -> zlen got <= limit /\ exists rest, stream = got ++ rest.
+Proof. exact read_reply_bounded. Qed.
+Print Assumptions C16_http_reply_read_within_limit.
